@@ -55,4 +55,46 @@ CLAIMED["C09"] = {
           "The alias/prefix part of the property is checked by execution, the theorems cover the removal part.",
   "technique": "Coq proof (reachability closure) + execution of generated module graphs",
 }
+CLAIMED["C01"] = {
+  "text": "Theorem for ALL call-free scalar expressions (any depth and operator mix, all int64 values): the Bash lines the converter emits compute the "
+          "expression's source value in the shell semantics, touching only fresh helpers; literal printing/reading round trip; reference arithmetic is "
+          "int64; script structure theorems. Statement-level behaviour is decided by executing generated programs: implementation script under "
+          "/bin/bash vs the reference semantics, script bytes vs the model.",
+  "ref": "DESIGN.md section 5/C01",
+  "note": "PARTIAL: the simulation of statements/control flow (C01_full_statement) is tested, not proved. Sem/BashSem.v (shell semantics of the scalar line "
+          "templates) and Sem/Src.v are specifications validated against real Bash.",
+  "technique": "Coq proof (expression-level semantic preservation) + execution against a reference interpreter",
+}
+CLAIMED["C02"] = {
+  "text": "Theorems: frame mangling f<k>_<name> is injective and k is fresh per function, globals keep their name, call lines appear in evaluation order. "
+          "Call semantics (binding, returns, multi-values, swaps, globals written in functions) decided by executing generated programs against Sem/Src.v.",
+  "ref": "DESIGN.md section 5/C02",
+  "note": "PARTIAL: no simulation proof for calls. Known defects are listed in known_findings.json.",
+  "technique": "Coq proof (name isolation, call order) + execution against a reference interpreter",
+}
+CLAIMED["C03"] = {
+  "text": "Theorems on the reference semantics: element assignment grows and zero-fills exactly as stated, substrings have Go's meaning; emitted structure. "
+          "Slice/string behaviour of the emitted script decided by executing generated programs (aliasing, growth, copy, range, subscripts) against Sem/Src.v.",
+  "ref": "DESIGN.md section 5/C03",
+  "note": "PARTIAL: the shell-side representation of slices (eval, _dv<n>) is tested, not proved.",
+  "technique": "Coq proof (specification lemmas) + execution against a reference interpreter",
+}
+CLAIMED["C04"] = {
+  "text": "Theorem for ALL programs: the function-call lines of the emitted Bash script are exactly the calls of the program, each once, in the prescribed "
+          "order (operands left to right, arguments before calls, both sides of && and ||, all conditions of an if-chain before any branch, "
+          "init/increment/condition/body for loops). The trace of side effects is checked by executing programs with effectful functions at operand positions.",
+  "ref": "DESIGN.md section 5/C04",
+  "note": "The theorem is syntactic (order of emission); that the shell runs lines in order is part of the trusted shell semantics.",
+  "technique": "Coq proof by induction over the transpiler traversal + execution traces",
+}
+CLAIMED["C16"] = {
+  "text": "Theorem for ALL programs (Bash): the emitted script is well nested - if/elif/else/fi, while/done, function braces - and every compound list is "
+          "non-empty, i.e. passes the syntax checker that models bash -n; validated against the real bash -n on every generated script. Batch: the "
+          "structural conditions (parentheses, unique/defined labels, helpers iff used, loop jumps inside the loop) are checked on every emitted script "
+          "by two independent checkers (Go on the implementation's text, Coq on the model's lines).",
+  "ref": "DESIGN.md section 5/C16",
+  "note": "PARTIAL for Batch: the checker is run per script, no theorem over all programs. The Bash theorem assumes every statement emits a command (emits_all), "
+          "which is checked on every accepted program.",
+  "technique": "Coq proof (stack-machine syntax checker, induction over the traversal) + bash -n / structural validation",
+}
 NOT_CLAIMED = {}
